@@ -19,6 +19,8 @@ import (
 	"go.temporal.io/server/common/persistence/serialization"
 	"google.golang.org/protobuf/proto"
 	"google.golang.org/protobuf/reflect/protoreflect"
+
+	"github.com/temporalio/s2s-proxy/interceptor"
 )
 
 var evSerializer = serialization.NewSerializer()
@@ -838,5 +840,30 @@ func jsonEncodeBlobs(m protoreflect.Message) int {
 		}
 		return true
 	})
+	return n
+}
+
+// sparseWarm hands the translator, before anything else, an EMPTY and a scalars-only ("idle") instance of every root
+// type: an idle stream message, an empty page, a request with nothing set. Translation of a message must not depend on
+// what the process translated before; a shortcut that remembers "a message of this type had nothing to translate" is
+// taught exactly that here, for every type, before the per-path checks run.
+func sparseWarm(g *typeGraph, roots []int, fl *filler, trs ...interceptor.Translator) int {
+	n := 0
+	for _, r := range roots {
+		for variant := 0; variant < 2; variant++ {
+			pm, ok := reflect.New(g.Types[r].rt).Interface().(proto.Message)
+			if !ok {
+				continue
+			}
+			if variant == 1 {
+				fl.fill(pm.ProtoReflect(), 0) // scalars of the root only
+			}
+			for _, tr := range trs {
+				_, _ = tr.TranslateRequest(proto.Clone(pm))
+				_, _ = tr.TranslateResponse(proto.Clone(pm))
+			}
+			n++
+		}
+	}
 	return n
 }
